@@ -270,7 +270,14 @@ func (cs *Contracts) LoadContractFile(path, pkgPath string) error {
 				full = pkgPath + "." + name
 			}
 			cur = &FuncContract{Kind: c.kw, Name: full, Loops: map[int]*LoopSpec{}, File: path, Line: c.no, Pkg: pkgPath, At: at, RelName: name}
-			if _, dup := cs.Funcs[full]; dup {
+			if prev, dup := cs.Funcs[full]; dup && c.kw == "extern" && pkgPath != "" && prev.Pkg != "" && prev.Pkg != pkgPath {
+				// what one package assumes about a function of another package that has a contract of
+				// its own: used for calls from that package only
+				full = full + "@" + pkgPath
+				cur.Name = full
+			}
+			if prev, dup := cs.Funcs[full]; dup && !(prev.Pkg == "" && pkgPath != "" && prev.Kind == "extern" && c.kw == "extern") {
+				// (an extern stated next to the code that relies on it replaces the generic library one)
 				return fmt.Errorf("%s:%d: duplicate contract for %s", path, c.no, full)
 			}
 			cs.Funcs[full] = cur
